@@ -6,19 +6,19 @@ import PyctrModel.Base.AFile
 namespace Pyctr
 universe u
 
-structure Seg (σ : Type u) where
+structure Seg (σ : Type) where
   fh : σ
   start : Nat
   size : Nat
 
-structure Merger (σ : Type u) where
+structure Merger (σ : Type) where
   files : List (Seg σ)
   fake : Nat          -- _fake_seek
   idx : Nat           -- _seek_info[0]
   total : Nat
 
 namespace Merger
-variable {σ : Type u} (F : FileOps σ)
+variable {σ : Type} (F : FileOps σ)
 
 /-- constructor: cumulative start offsets -/
 def mkSegs : List (σ × Nat) → Nat → List (Seg σ)
@@ -86,7 +86,7 @@ def ops : FileOps (Merger σ) where
 end Merger
 
 /-- `CloseWrapper`: pure delegation (`tell` is `RawIOBase.tell` = `seek(0, 1)` on the wrapped object). -/
-def closeWrapperOps {σ : Type u} (F : FileOps σ) : FileOps σ where
+def closeWrapperOps {σ : Type} (F : FileOps σ) : FileOps σ where
   read := F.read
   write := F.write
   seek := F.seek
